@@ -761,8 +761,16 @@ impl PreferenceManager {
                 self.set_speech_files(&language_dir, changed_value, None)?
             },
             "SpeechStyle" => {
+                // "Auto" stands for the language the host has given in LanguageAuto (English before it has given one)
                 let language = self.pref_to_string("Language");
-                let language = if language.as_str() == "Auto" {"en"} else {language.as_str()};       // avoid 'temp value dropped while borrowed' error
+                let language_auto = self.pref_to_string("LanguageAuto");
+                let language = if language.as_str() != "Auto" {
+                    language.as_str()
+                } else if !language_auto.is_empty() && language_auto != NO_PREFERENCE {
+                    language_auto.as_str()
+                } else {
+                    "en"
+                };
                 self.set_style_file(&language_dir, language, changed_value)?
             },
             "BrailleCode" => {
